@@ -15,6 +15,7 @@ import (
 	"sort"
 	"strconv"
 	"strings"
+	"time"
 
 	"github.com/goplus/gogen"
 )
@@ -38,8 +39,11 @@ type Driver struct {
 	// Trace is called after every (sub-)expression has been pushed: e is the source expression, el
 	// the element on top of the stack; ref is true for assignment targets (VarRef/MemberRef/...).
 	Trace func(e ast.Expr, el *gogen.Element, ref bool)
-	// After is called after every builder operation.
-	After func(s Step)
+	// Before is called before, After after every builder operation.
+	Before func(name string)
+	After  func(s Step)
+	// OnStmtStart is called before a statement is translated.
+	OnStmtStart func(s ast.Stmt)
 	// OnStmt is called after each completed statement (at statement boundaries of a block).
 	OnStmt func(s ast.Stmt)
 	// OnDecl is called after a declaration introduced names into the current scope.
@@ -59,6 +63,9 @@ func unsupportedf(format string, a ...any) { panic(unsupported(fmt.Sprintf(forma
 
 func (d *Driver) do(name string, delta int, f func()) {
 	before := d.CB.InternalStack().Len()
+	if d.Before != nil {
+		d.Before(name)
+	}
 	f()
 	d.Steps++
 	if d.After != nil {
@@ -243,11 +250,7 @@ func (d *Driver) instType(x ast.Expr, idx []ast.Expr) types.Type {
 	for i, a := range idx {
 		args[i] = d.Typ(a)
 	}
-	inst, err := types.Instantiate(nil, g, args, true)
-	if err != nil {
-		panic(err)
-	}
-	return inst
+	return d.Pkg.Instantiate(g, args, x)
 }
 
 // constraintTerm handles embedded elements of interfaces: types, ~T and unions.
@@ -314,9 +317,9 @@ func (d *Driver) constInt(e ast.Expr) int64 {
 
 // exprIn compiles e on a different builder (constant evaluation).
 func (d *Driver) exprIn(cb *gogen.CodeBuilder, e ast.Expr) {
-	old, oa, ot := d.CB, d.After, d.Trace
-	d.CB, d.After, d.Trace = cb, nil, nil
-	defer func() { d.CB, d.After, d.Trace = old, oa, ot }()
+	old, oa, ot, ob := d.CB, d.After, d.Trace, d.Before
+	d.CB, d.After, d.Trace, d.Before = cb, nil, nil, nil
+	defer func() { d.CB, d.After, d.Trace, d.Before = old, oa, ot, ob }()
 	d.expr(e)
 }
 
@@ -775,6 +778,9 @@ func (d *Driver) stmts(list []ast.Stmt) {
 
 func (d *Driver) stmt(s ast.Stmt) {
 	d.Cur = s
+	if d.OnStmtStart != nil {
+		d.OnStmtStart(s)
+	}
 	d.stmt0(s)
 	if d.OnStmt != nil {
 		d.OnStmt(s)
@@ -893,7 +899,7 @@ func (d *Driver) stmt0(s ast.Stmt) {
 		} else {
 			d.do("None", +1, func() { cb.None() })
 		}
-		d.do("Then", 0, func() { cb.Then(v.Body) }) // the tag stays on the stack until End
+		d.do("Then(switch)", -1, func() { cb.Then(v.Body) })
 		for _, c := range v.Body.List {
 			cc := c.(*ast.CaseClause)
 			d.do("Case", 0, func() { cb.Case(cc) })
@@ -904,7 +910,7 @@ func (d *Driver) stmt0(s ast.Stmt) {
 			d.stmts(cc.Body)
 			d.do("End(case)", 0, func() { cb.End(cc) })
 		}
-		d.do("End(switch)", -1, func() { cb.End(v) })
+		d.do("End(switch)", 0, func() { cb.End(v) })
 	case *ast.TypeSwitchStmt:
 		name := ""
 		var x ast.Expr
@@ -1350,6 +1356,8 @@ type Result struct {
 	Pkg       *gogen.Package
 	Steps     int
 	At        ast.Node // what the driver was translating when a panic occurred
+	BuildDur  time.Duration
+	WriteDur  time.Duration
 }
 
 // Accepted reports whether the builder reported nothing at all.
@@ -1460,6 +1468,12 @@ func Build(fset *token.FileSet, files []*ast.File, srcs map[string][]byte, o Opt
 		}()
 		f()
 	}
+	t0 := time.Now()
+	defer func() {
+		if r.WriteDur == 0 {
+			r.BuildDur = time.Since(t0)
+		}
+	}()
 	guard("build", func() {
 		pkg := gogen.NewPackage(o.PkgPath, name, conf)
 		r.Pkg = pkg
@@ -1486,9 +1500,12 @@ func Build(fset *token.FileSet, files []*ast.File, srcs map[string][]byte, o Opt
 		}
 	})
 	r.Steps = d.Steps
+	r.BuildDur = time.Since(t0)
 	if r.Panic != nil || o.NoWrite || r.Pkg == nil {
 		return
 	}
+	t1 := time.Now()
+	defer func() { r.WriteDur = time.Since(t1) + 1 }()
 	guard("write", func() {
 		var names []string
 		r.Pkg.ForEachFile(func(fname string, _ *gogen.File) { names = append(names, fname) })
